@@ -850,6 +850,11 @@ func (g *gen) variantOf(vals []int, label string) int {
 	return pick(g, vals, label)
 }
 
+// yamlHostile are strings that some YAML reader resolves to a non-string (YAML 1.1 booleans in every
+// capitalisation, null words, numbers, dates) or that need quoting.
+var yamlHostile = []string{"123", "no", "No", "NO", "yes", "Yes", "on", "ON", "Off", "y", "Y", "n", "N", "true", "True", "TRUE", "false", "null", "Null", "NULL", "~",
+	"1e3", "0x10", "0o14", "1_000", ".inf", ".NaN", "2001-12-14", "12:30:45", "a: b", "#c", "- x", "<<", "=", "1.2.3", "010", "+1"}
+
 func is64(k Kind) bool {
 	return k == KInt64 || k == KUint64 || k == KSint64 || k == KFixed64 || k == KSfixed64
 }
@@ -1017,7 +1022,7 @@ func (g *gen) headers(over []*Header) []*Header {
 		if g.oneIn(4, "hexample") {
 			h.Example = "example-1"
 			if (h.Type == "string" || h.Type == "") && g.oneIn(2, "hexhostile") && !g.avoid("header_example_untagged_yaml_scalar") {
-				h.Example = pick(g, []string{"no", "on", "123", "true", "null", "1.2.3", "~"}, "hexval")
+				h.Example = pick(g, yamlHostile, "hexval")
 				g.tagf("header_example:yaml_hostile")
 			}
 		}
@@ -1256,6 +1261,19 @@ func (g *gen) addRules(m *Message) {
 			r.MinPairs = u64p(uint64(g.intn(0, 2, "minpairs")))
 		case f.Card != Singular:
 			continue
+		case f.Kind == KString && g.p.HostileText && g.oneIn(3, "strin") && !g.avoid("rules_untagged_yaml_scalars"):
+			// an `in` list of strings that YAML readers may take for something else
+			for i, n := 0, g.intn(1, 3, "nstrin"); i < n; i++ {
+				v := pick(g, yamlHostile, "strinval")
+				dup := false
+				for _, o := range r.StrIn {
+					dup = dup || o == v
+				}
+				if !dup {
+					r.StrIn = append(r.StrIn, v)
+				}
+			}
+			g.tagf("rules:string_in_yaml_hostile")
 		case f.Kind == KString:
 			lo := uint64(g.intn(0, 3, "minlen"))
 			r.MinLen = u64p(lo)
@@ -1299,7 +1317,7 @@ func (g *gen) addExamples(m *Message) {
 				g.tagf("examples:hostile_text")
 			}
 			if !g.p.MockShape && g.oneIn(3, "yamlhostile") && !g.avoid("examples_untagged_yaml_scalars") {
-				ex = append(ex, pick(g, []string{"123", "no", "true", "null", "1e3", "~", "2001-12-14", "a: b", "#c", "on"}, "hostileex"))
+				ex = append(ex, pick(g, yamlHostile, "hostileex"))
 				g.tagf("examples:yaml_hostile")
 			}
 		case f.Kind.IsInt():
